@@ -93,12 +93,24 @@ type env struct {
 	hung     string
 	shortTO  time.Duration
 	anomaly  bool // a short timer fired before its script step: the schedule was not realised as scripted
+
+	// Run-side gate (script steps G / g): the next notifySubscribers is parked at its bestConn.ID() call, holding RLock
+	runArmed   atomic.Bool
+	runParkCh  chan struct{}
+	runRelease chan struct{}
+	armed      bool // harness view: G given, Run not parked yet
+	runParked  bool // harness view: Run is parked inside notifySubscribers
+	blocked    int  // goroutines the script has sent against the pool lock while Run is parked
+	asyncTick  *atomic.Bool
+	lateWaiter *waiter // arrival launched while Run was parked (its wait id is determined after the release)
+	lateIDBase uint64
 }
 
 func newEnv(strategy string, heads []uint32, best int) *env {
-	markLineStart()
 	p, vs := pool.VerifNewPool(strategy, len(heads))
-	e := &env{p: p, vs: vs, strategy: strategy, ws: map[int]*waiter{}}
+	markLineStart(p)
+	e := &env{p: p, vs: vs, strategy: strategy, ws: map[int]*waiter{},
+		runParkCh: make(chan struct{}, 4), runRelease: make(chan struct{})}
 	for i, v := range vs {
 		v.VerifSetAlive(true)
 		v.VerifSetRTT(time.Duration(i + 1))
@@ -106,6 +118,10 @@ func newEnv(strategy string, heads []uint32, best int) *env {
 		v.VerifSetGate(func(point string, id int) {
 			if point == "id" {
 				e.idCalls.Add(1)
+				if e.runArmed.CompareAndSwap(true, false) {
+					e.runParkCh <- struct{}{}
+					<-e.runRelease
+				}
 			}
 		})
 	}
@@ -233,6 +249,22 @@ func (e *env) listening() int64 {
 // M (the wait inside the public BestMasterchainClient: subscribe(1) when the best head is still 0; no timer, no loop).
 func (e *env) startWaiter(i int, target uint32, kind string) {
 	short, park := kind == "S", kind == "P"
+	if e.runParked {
+		// Run holds the read lock: the arrival queues up on the write lock inside subscribe
+		w := &waiter{ctx: newWaitCtx(), target: target}
+		e.ws[i] = w
+		e.order = append(e.order, i)
+		e.lateWaiter, e.lateIDBase = w, e.p.VerifLastWaitID()
+		go func() {
+			w.err = e.p.WaitMasterchainSeqno(w.ctx, target, longTimeout)
+			w.returned.Store(true)
+		}()
+		e.blocked++
+		if !await(func() bool { return blockedOnPoolLock() >= e.blocked }) {
+			e.hung = fmt.Sprintf("waiter=%d did not reach the pool lock", i)
+		}
+		return
+	}
 	w := &waiter{ctx: newWaitCtx(), target: target, short: short, parked: park, started: time.Now()}
 	w.ctx.hold.Store(park)
 	e.ws[i] = w
@@ -296,6 +328,22 @@ func (e *env) unpark(i int) {
 }
 
 func (e *env) publish(c int, q uint32) {
+	if e.runParked || e.armed {
+		before := e.vs[c].VerifHeadSeqno()
+		if !guarded(func() { e.vs[c].SetMasterHead(pool.VerifHead(q)) }) {
+			e.hung = fmt.Sprintf("SetMasterHead conn=%d seqno=%d", c, q)
+			return
+		}
+		if e.armed && q > before {
+			// Run takes this update and parks inside notifySubscribers (read lock held)
+			if !awaitChan(e.runParkCh) {
+				e.hung = "Run did not reach notifySubscribers"
+				return
+			}
+			e.armed, e.runParked = false, true
+		}
+		return
+	}
 	before := e.vs[c].VerifHeadSeqno()
 	idBefore := e.idCalls.Load()
 	from := e.progress()
@@ -333,8 +381,27 @@ func (e *env) tick(mask int, rtts []int64) {
 			v.VerifSetRTT(time.Duration(rtts[i]))
 		}
 	}
+	if e.runParked {
+		// the refresh queues up on the write lock; it runs right after the notification in progress
+		var done atomic.Bool
+		e.asyncTick = &done
+		go func() { e.p.VerifUpdateBest(); done.Store(true) }()
+		e.blocked++
+		if !await(func() bool { return blockedOnPoolLock() >= e.blocked }) {
+			e.hung = "updateBest did not reach the pool lock"
+		}
+		return
+	}
+	bestBefore := e.p.VerifBestID()
+	from := e.progress()
+	served := e.listening()
 	if !guarded(func() { e.p.VerifUpdateBest() }) {
 		e.hung = "updateBest"
+		return
+	}
+	// a switch of the best connection offers its head to every listening waiter (pacing hint, see expectEvents)
+	if nb := e.p.VerifBestID(); nb != bestBefore && nb >= 0 && e.vs[nb].VerifHeadSeqno() > 0 {
+		e.expectEvents(from, served)
 	}
 }
 
@@ -342,6 +409,17 @@ func (e *env) tick(mask int, rtts []int64) {
 func (e *env) leave(i int, cancel bool) {
 	w, ok := e.ws[i]
 	if !ok || w.returned.Load() || w.parked {
+		return
+	}
+	if e.runParked {
+		if !cancel {
+			return
+		}
+		w.ctx.cancel()
+		e.blocked++
+		if !await(func() bool { return blockedOnPoolLock() >= e.blocked }) {
+			e.hung = fmt.Sprintf("waiter=%d did not reach the pool lock after cancel", i)
+		}
 		return
 	}
 	if cancel {
@@ -357,14 +435,79 @@ func (e *env) leave(i int, cancel bool) {
 	}
 }
 
+// armRun: the next update Run processes parks inside notifySubscribers.
+func (e *env) armRun() {
+	if e.runParked || e.armed {
+		return
+	}
+	e.armed = true
+	e.runArmed.Store(true)
+}
+
+// releaseRun lets Run go on and waits until everything that was queued behind it has happened.
+func (e *env) releaseRun() {
+	if e.armed && !e.runParked {
+		e.armed = false
+		e.runArmed.Store(false)
+		return
+	}
+	if !e.runParked {
+		return
+	}
+	e.runParked = false
+	e.runRelease <- struct{}{}
+	if !await(func() bool { return e.p.VerifUpdatesPending() == 0 && blockedOnPoolLock() == 0 }) {
+		e.hung = "pool does not come to rest after Run was released"
+		return
+	}
+	if e.asyncTick != nil {
+		if !await(e.asyncTick.Load) {
+			e.hung = "updateBest does not return"
+			return
+		}
+		e.asyncTick = nil
+	}
+	e.blocked = 0
+	if !guarded(func() { e.p.Status() }) {
+		e.hung = "Status() after release of Run"
+		return
+	}
+	if w := e.lateWaiter; w != nil {
+		await(func() bool { return w.ctx.evals.Load() >= 1 || w.returned.Load() })
+		if id := e.p.VerifLastWaitID(); id != e.lateIDBase {
+			w.wid = id
+		} else {
+			await(func() bool { return w.returned.Load() })
+		}
+		e.lateWaiter = nil
+	}
+	// every listening waiter drains its channel; then a grace period for the events that follow a receive
+	await(func() bool {
+		for _, w := range e.ws {
+			if w.wid != 0 && !w.parked && !w.returned.Load() && e.p.VerifUnreadOf(w.wid) > 0 {
+				return false
+			}
+		}
+		return true
+	})
+	e.expectEvents(e.progress(), 0)
+	time.Sleep(300 * time.Microsecond)
+	e.expectEvents(e.progress(), 0)
+}
+
 func (e *env) obs(n int) string {
 	var sb strings.Builder
-	wl := -1
-	if !guarded(func() { wl = e.p.VerifWaitListLen() }) {
-		e.hung = "pool lock not available (VerifWaitListLen)"
-		return "hang"
+	if e.runParked {
+		// Run is parked holding the read lock, writers may be queued: only lock-free observations
+		fmt.Fprintf(&sb, "P%d/", e.p.VerifUpdatesPending())
+	} else {
+		wl := -1
+		if !guarded(func() { wl = e.p.VerifWaitListLen() }) {
+			e.hung = "pool lock not available (VerifWaitListLen)"
+			return "hang"
+		}
+		fmt.Fprintf(&sb, "%d/%d/", e.p.VerifBestID(), wl)
 	}
-	fmt.Fprintf(&sb, "%d/%d/", e.p.VerifBestID(), wl)
 	for i := 0; i < n; i++ {
 		w, ok := e.ws[i]
 		switch {
@@ -397,28 +540,25 @@ func (e *env) close() {
 			}
 		}
 	}
+	e.runArmed.Store(false)
+	select {
+	case e.runRelease <- struct{}{}:
+	default:
+	}
 	e.stopRun()
 }
 
 var frameRe = regexp.MustCompile(`(?m)^(goroutine (\d+) \[[^\]]*\]):\n((?:.+\n)+)`)
 
-// baseGid: goroutines with a smaller id were created by earlier lines (a hung pool of an earlier line leaks its
-// goroutines); they are left out of the dumps.
-var baseGid int
+// curPool: the address of the pool of the current line as it appears in stack traces (receiver argument of the
+// ConnPool methods). Goroutines of earlier lines (a hung pool leaks its goroutines) belong to other pools and are left
+// out. (Goroutine ids cannot be used for this: they are handed out to the Ps in batches and are not monotone.)
+var curPool string
 
-func markLineStart() {
-	ch := make(chan int)
-	go func() {
-		buf := make([]byte, 64)
-		buf = buf[:runtime.Stack(buf, false)]
-		f := strings.Fields(string(buf))
-		id := 0
-		if len(f) > 1 {
-			id, _ = strconv.Atoi(f[1])
-		}
-		ch <- id
-	}()
-	baseGid = <-ch
+func markLineStart(p *pool.ConnPool) { curPool = fmt.Sprintf("(%p", p) }
+
+func ofCurPool(stack string) bool {
+	return strings.Contains(stack, curPool+",") || strings.Contains(stack, curPool+")")
 }
 
 // poolGoroutines summarises the goroutines that are inside liteapi/pool: state + innermost frames.
@@ -427,7 +567,7 @@ func poolGoroutines() string {
 	buf = buf[:runtime.Stack(buf, true)]
 	var out []string
 	for _, m := range frameRe.FindAllStringSubmatch(string(buf), -1) {
-		if gid, _ := strconv.Atoi(m[2]); gid < baseGid || !strings.Contains(m[3], "liteapi/pool.") {
+		if !ofCurPool(m[3]) {
 			continue
 		}
 		var fr []string
@@ -449,7 +589,20 @@ func poolGoroutines() string {
 		}
 		out = append(out, m[1]+" "+strings.Join(fr, " < "))
 	}
-	return strings.Join(out, " ;; ")
+	return fmt.Sprintf("[%d goroutines, dump %d bytes] ", runtime.NumGoroutine(), len(buf)) + strings.Join(out, " ;; ")
+}
+
+// blockedOnPoolLock counts the goroutines of this line that are waiting for the pool's write lock.
+func blockedOnPoolLock() int {
+	buf := make([]byte, 1<<20)
+	buf = buf[:runtime.Stack(buf, true)]
+	n := 0
+	for _, m := range frameRe.FindAllStringSubmatch(string(buf), -1) {
+		if strings.Contains(m[3], "sync.(*RWMutex).Lock") && ofCurPool(m[3]) {
+			n++
+		}
+	}
+	return n
 }
 
 // ------------------------------------------------------------------------------------------------- scripts
@@ -511,6 +664,10 @@ func runScript(s script, shortTO time.Duration) (obs []string, hung string, anom
 			e.startWaiter(atoi(f[1]), u32(f[2]), f[3])
 		case "r":
 			e.unpark(atoi(f[1]))
+		case "G":
+			e.armRun()
+		case "g":
+			e.releaseRun()
 		case "u":
 			e.publish(atoi(f[1]), u32(f[2]))
 		case "t":
@@ -535,8 +692,12 @@ func runScript(s script, shortTO time.Duration) (obs []string, hung string, anom
 			return obs, fmt.Sprintf("step=%s: %s; goroutines: %s", st, e.hung, poolGoroutines()), anomaly
 		}
 	}
-	// epilogue: parked waiters are released, then everybody still waiting is cancelled; the wait list must drain
-	// and the pool must stay responsive
+	// epilogue: Run and parked waiters are released, then everybody still waiting is cancelled; the wait list must
+	// drain and the pool must stay responsive
+	e.releaseRun()
+	if e.hung != "" {
+		return obs, fmt.Sprintf("epilogue: %s; goroutines: %s", e.hung, poolGoroutines()), anomaly
+	}
 	for _, i := range e.order {
 		e.unpark(i)
 		if e.hung != "" {
@@ -593,11 +754,29 @@ func expectScript(s script) []string {
 	parked := make([]bool, s.nw)  // held before its select: a decision already reached shows only after release
 	reached := make([]bool, s.nw) // parked and its target has been reported
 	registered := make([]bool, s.nw)
+	leaving := make([]bool, s.nw) // cancelled while Run holds the read lock: returns once it can unsubscribe
 	for i := range state {
 		state[i] = '-'
 	}
+	// Run-side gate: armed -> the next update of any connection is taken by Run and held inside notifySubscribers
+	type upd struct {
+		c int
+		q uint32
+	}
+	var (
+		armed, runParked bool
+		inProgress       *upd
+		queue            []upd
+		lateArrival      = -1
+		lateTick         []string
+		lateCancel       = -1
+	)
 	var out []string
 	snap := func() {
+		if runParked {
+			out = append(out, fmt.Sprintf("P%d/%s", len(queue), string(state)))
+			return
+		}
 		wl := 0
 		for i, c := range state {
 			if c == 'w' && registered[i] {
@@ -606,22 +785,93 @@ func expectScript(s script) []string {
 		}
 		out = append(out, fmt.Sprintf("%d/%d/%s", best, wl, string(state)))
 	}
+	offer := func(q uint32) { // the best connection reports q to everybody who listens
+		for i := range state {
+			if state[i] == 'w' && registered[i] && !leaving[i] && q >= target[i] {
+				if parked[i] {
+					reached[i] = true
+				} else {
+					state[i] = 'o'
+				}
+			}
+		}
+	}
+	notify := func(u upd) {
+		if u.c == best {
+			offer(u.q)
+		}
+	}
+	arrive := func(i int) {
+		if best < 0 {
+			state[i] = 'p'
+		} else if heads[best] >= target[i] {
+			if parked[i] {
+				state[i], reached[i] = 'w', true
+			} else {
+				state[i] = 'o'
+			}
+		} else {
+			state[i], registered[i] = 'w', true
+		}
+	}
+	refresh := func(f []string) {
+		mask := atoi(f[1])
+		rs := parseRtts(f[2])
+		ms := make([]member, len(heads))
+		for i := range ms {
+			alive[i] = mask>>uint(i)&1 == 1
+			if i < len(rs) {
+				rtt[i] = rs[i]
+			}
+			ms[i] = member{alive: alive[i], seqno: heads[i], rtt: rtt[i]}
+		}
+		if nb := ruleSelect(s.strategy, ms, best); nb != best {
+			// the choice changes: the waiters learn the head the new best connection already has
+			best = nb
+			if q := heads[best]; q > 0 {
+				offer(q)
+			}
+		}
+	}
+	release := func() {
+		if !runParked {
+			armed = false
+			return
+		}
+		runParked = false
+		if inProgress != nil {
+			notify(*inProgress)
+			inProgress = nil
+		}
+		// whoever queued on the write lock goes before Run gets the read lock again
+		if lateArrival >= 0 {
+			arrive(lateArrival)
+			lateArrival = -1
+		}
+		if lateTick != nil {
+			refresh(lateTick)
+			lateTick = nil
+		}
+		if lateCancel >= 0 {
+			state[lateCancel], leaving[lateCancel] = 'e', false
+			lateCancel = -1
+		}
+		for _, u := range queue {
+			notify(u)
+		}
+		queue = nil
+	}
 	for _, st := range s.steps {
 		f := strings.Split(st, ":")
 		switch f[0] {
 		case "w":
 			i := atoi(f[1])
 			target[i], short[i], parked[i] = u32(f[2]), f[3] == "S", f[3] == "P"
-			if best < 0 {
-				state[i] = 'p'
-			} else if heads[best] >= target[i] {
-				if parked[i] {
-					state[i], reached[i] = 'w', true
-				} else {
-					state[i] = 'o'
-				}
+			if runParked {
+				state[i], parked[i], short[i] = 'w', false, false
+				lateArrival = i
 			} else {
-				state[i], registered[i] = 'w', true
+				arrive(i)
 			}
 		case "r":
 			if i := atoi(f[1]); i < len(state) && parked[i] {
@@ -630,45 +880,50 @@ func expectScript(s script) []string {
 					state[i] = 'o'
 				}
 			}
+		case "G":
+			if !runParked {
+				armed = true
+			}
+		case "g":
+			release()
 		case "u":
 			c, q := atoi(f[1]), u32(f[2])
 			if q > heads[c] {
 				heads[c] = q
-				if c == best {
-					for i := range state {
-						if state[i] == 'w' && q >= target[i] {
-							if parked[i] {
-								reached[i] = true
-							} else {
-								state[i] = 'o'
-							}
-						}
-					}
+				switch {
+				case armed:
+					armed, runParked = false, true
+					inProgress = &upd{c, q}
+				case runParked:
+					queue = append(queue, upd{c, q})
+				default:
+					notify(upd{c, q})
 				}
 			}
 		case "t":
-			mask := atoi(f[1])
-			rs := parseRtts(f[2])
-			ms := make([]member, len(heads))
-			for i := range ms {
-				alive[i] = mask>>uint(i)&1 == 1
-				if i < len(rs) {
-					rtt[i] = rs[i]
-				}
-				ms[i] = member{alive: alive[i], seqno: heads[i], rtt: rtt[i]}
+			if runParked {
+				lateTick = f
+			} else {
+				refresh(f)
 			}
-			best = ruleSelect(s.strategy, ms, best)
 		case "c":
 			if i := atoi(f[1]); i < len(state) && state[i] == 'w' && !parked[i] {
-				state[i] = 'e'
+				if runParked {
+					if !leaving[i] {
+						leaving[i], lateCancel = true, i
+					}
+				} else {
+					state[i] = 'e'
+				}
 			}
 		case "x":
-			if i := atoi(f[1]); i < len(state) && state[i] == 'w' && short[i] && !parked[i] {
+			if i := atoi(f[1]); i < len(state) && state[i] == 'w' && short[i] && !parked[i] && !runParked {
 				state[i] = 'e'
 			}
 		}
 		snap()
 	}
+	release()
 	for i := range state {
 		if state[i] == 'w' && parked[i] && reached[i] {
 			state[i] = 'o'
@@ -795,8 +1050,8 @@ func goAdvCancel(a []string) string {
 // Run is released. All publications must complete, Run must keep draining, the pool must stay responsive.
 func goAdvPublish(a []string) string {
 	extra := atoi(a[0])
-	markLineStart()
 	p, vs := pool.VerifNewPool(pool.BestPingStrategy, 1)
+	markLineStart(p)
 	vs[0].VerifSetAlive(true)
 	p.VerifSetBest(vs[0])
 	p.VerifSetInterval(2 * time.Millisecond)
@@ -849,13 +1104,13 @@ func goAdvPublish(a []string) string {
 func goAdvRandom(a []string) string {
 	seed, nops := int64(atoi(a[0])), atoi(a[1])
 	rng := rand.New(rand.NewSource(seed))
-	markLineStart()
 	nc := 1 + rng.Intn(3)
 	heads := make([]uint32, nc)
 	for i := range heads {
 		heads[i] = uint32(rng.Intn(3))
 	}
 	p, vs := pool.VerifNewPool([]string{pool.BestPingStrategy, pool.FirstWorkingConnection}[rng.Intn(2)], nc)
+	markLineStart(p)
 	e := &env{p: p, vs: vs, ws: map[int]*waiter{}}
 	for i, v := range vs {
 		v.VerifSetAlive(true)
@@ -1090,8 +1345,8 @@ func goAdvSubscribe(a []string) string {
 // drains. Then Run is let go: all publications must complete and the waiter must return success.
 func goAdvQueue(a []string) string {
 	extra, mode := atoi(a[0]), a[1]
-	markLineStart()
 	p, vs := pool.VerifNewPool(pool.BestPingStrategy, 1)
+	markLineStart(p)
 	vs[0].VerifSetAlive(true)
 	p.VerifSetBest(vs[0])
 	n := p.VerifUpdatesCap() + extra
@@ -1188,6 +1443,9 @@ func genWait(g *h.G, out func(op string, args ...string)) {
 	emit("first-working", "5/5", "0", "w:0:7:L", "u:1:7", "t:2:1.1", "u:1:8", "u:0:9")
 	emit("best-ping", "5/9", "0", "w:0:7:L", "w:1:6:L", "t:3:2.1", "u:1:10")
 	emit("best-ping", "0", "-1", "w:0:1:L")
+	// the best connection dies and the pool switches to one that already has the awaited head
+	emit("best-ping", "5/9", "0", "w:0:8:L", "t:2:1.1")
+	emit("first-working", "5/9/9", "0", "w:0:8:L", "w:1:10:L", "w:2:9:P", "t:6:1.1.1", "r:2", "u:1:10")
 	// a waiter held before its select while heads arrive: the newest head must be the one it finds
 	emit("best-ping", "5", "0", "w:0:8:P", "u:0:7", "u:0:8", "r:0")
 	emit("best-ping", "5", "0", "w:0:8:P", "u:0:8", "u:0:9", "u:0:10", "r:0")
@@ -1197,6 +1455,88 @@ func genWait(g *h.G, out func(op string, args ...string)) {
 	emit("best-ping", "0/0", "0", "w:0:1:M", "u:1:1", "u:0:1")
 	emit("best-ping", "0/2", "0", "w:0:1:M", "w:1:1:M", "c:0", "t:2:1.1", "u:1:3")
 	emit("best-ping", "4", "0", "w:0:1:M")
+	// NON-quiescent schedules: Run held inside notifySubscribers (read lock) while heads, an arrival, a cancellation
+	// or a refresh queue up behind it; the stale heads of a connection that becomes best only afterwards
+	emit("best-ping", "5/5", "0", "w:0:12:P", "G", "u:0:12", "u:1:9", "u:1:10", "u:1:11", "t:2:1.1", "g", "r:0")
+	emit("best-ping", "5", "0", "w:0:7:L", "G", "u:0:6", "u:0:7", "u:0:8", "g")
+	emit("best-ping", "5", "0", "G", "u:0:6", "w:0:7:L", "u:0:7", "g")
+	emit("best-ping", "5", "0", "w:0:9:L", "G", "u:0:6", "c:0", "u:0:9", "g")
+	emit("first-working", "5/6", "0", "w:0:7:L", "w:1:6:L", "G", "u:1:7", "t:2:1.1", "u:1:8", "g")
+	for k := 0; k < g.Scale(150, 2500); k++ {
+		nc := 1 + g.Rng.Intn(3)
+		heads := make([]uint32, nc)
+		hs := make([]string, nc)
+		for i := range heads {
+			heads[i] = uint32(1 + g.Rng.Intn(4))
+			hs[i] = fmt.Sprint(heads[i])
+		}
+		best := g.Rng.Intn(nc)
+		args := []string{strategies[g.Rng.Intn(2)], strings.Join(hs, "/"), fmt.Sprint(best)}
+		nw := 0
+		var parkedW, active []int
+		mx := func() int {
+			m := 0
+			for _, q := range heads {
+				if int(q) > m {
+					m = int(q)
+				}
+			}
+			return m
+		}
+		for i := g.Rng.Intn(3); i > 0 && nw < 4; i-- { // waiters that are there before Run is held
+			kind := "L"
+			if g.Rng.Intn(3) == 0 {
+				kind = "P"
+				parkedW = append(parkedW, nw)
+			} else {
+				active = append(active, nw)
+			}
+			args = append(args, fmt.Sprintf("w:%d:%d:%s", nw, mx()+1+g.Rng.Intn(4), kind))
+			nw++
+		}
+		pub := func() {
+			c := g.Rng.Intn(nc)
+			heads[c] += uint32(1 + g.Rng.Intn(2))
+			args = append(args, fmt.Sprintf("u:%d:%d", c, heads[c]))
+		}
+		args = append(args, "G")
+		pub() // Run takes this one and is held
+		late := g.Rng.Intn(4)
+		for i, m := 0, g.Rng.Intn(6); i < m; i++ {
+			pub()
+			if late >= 0 && g.Rng.Intn(3) == 0 {
+				switch late {
+				case 0:
+					args = append(args, fmt.Sprintf("w:%d:%d:L", nw, mx()-1+g.Rng.Intn(4)))
+					nw++
+				case 1:
+					if len(active) > 0 {
+						args = append(args, fmt.Sprintf("c:%d", active[g.Rng.Intn(len(active))]))
+					}
+				case 2:
+					if nc > 1 {
+						rt := make([]string, nc)
+						for i := range rt {
+							rt[i] = fmt.Sprint(1 + g.Rng.Intn(3))
+						}
+						args = append(args, fmt.Sprintf("t:%d:%s", 1+g.Rng.Intn(1<<uint(nc)-1), strings.Join(rt, ".")))
+					}
+				}
+				late = -1
+			}
+		}
+		args = append(args, "g")
+		for _, i := range parkedW {
+			if g.Rng.Intn(2) == 0 {
+				args = append(args, fmt.Sprintf("r:%d", i))
+			}
+		}
+		if g.Rng.Intn(2) == 0 {
+			pub()
+		}
+		g.Count("script_nonquiescent")
+		emit(args...)
+	}
 	n := g.Scale(400, 4000)
 	for k := 0; k < n; k++ {
 		nc := 1 + g.Rng.Intn(3)
